@@ -1440,6 +1440,7 @@ impl Prop for C20Prop {
                 "zip:multi_volume_with_empty_volume",
                 "zip:temp_dir_reused_by_second_call",
                 "zip:source_read_without_seek",
+                "zip:same_name_in_two_directories",
             ],
         }
     }
@@ -1457,9 +1458,95 @@ impl Prop for C20Prop {
     }
 }
 
+/// two different archives with the same file name in two directories, extracted one after the other in one process
+/// (the listing of an archive is cached for a minute): each call reports exactly the matching members of *its* archive
+fn same_name_family(ctx: &mut Ctx) {
+    use adlt::utils::unzip::extract_archives;
+    ctx.begin_family("same_name_archives", "archives d1/<name>.zip and d2/<name>.zip with different member lists x 3 patterns x both orders x {member lists nested, overlapping, disjoint}");
+    let base = std::env::temp_dir().join(format!("c20-same-{}", std::process::id()));
+    let _ = std::fs::create_dir_all(&base);
+    let log = slog::Logger::root(slog::Discard, slog::o!());
+    let cancel = std::sync::Arc::new(std::sync::atomic::AtomicBool::new(false));
+    let lists: Vec<(Vec<(&str, &[u8])>, Vec<(&str, &[u8])>)> = vec![
+        (vec![("ecu1/run.dlt", b"A-one"), ("readme.txt", b"a")], vec![("ecu1/run.dlt", b"B-one"), ("ecu2/run.dlt", b"B-two"), ("ecu2/empty.dlt", b"")]),
+        (vec![("ecu1/run.dlt", b"A-one"), ("ecu3/x.dlt", b"A-x")], vec![("ecu1/run.dlt", b"B-one"), ("ecu2/run.dlt", b"B-two")]),
+        (vec![("a.dlt", b"A")], vec![("b.dlt", b"B"), ("c/d.dlt", b"D")]),
+    ];
+    let pats: [Option<&str>; 3] = [None, Some("**/*.dlt"), Some("ecu2/*")];
+    let mut k = 0usize;
+    for (li, (la, lb)) in lists.iter().enumerate() {
+        for pat in pats {
+            for swap in [false, true] {
+                k += 1;
+                if !ctx.mine() {
+                    continue;
+                }
+                let cj = || json!({"family": "same_name_archives", "lists": li, "pattern": pat, "second_archive_first": swap});
+                let name = format!("logs{k}-{}", std::process::id());
+                let (first, second) = if swap { (lb, la) } else { (la, lb) };
+                let mut ok = true;
+                let mut temp_dirs: Vec<(String, tempfile::TempDir)> = vec![];
+                for (di, members) in [(1, first), (2, second)] {
+                    let dir = base.join(format!("{name}-d{di}"));
+                    let _ = std::fs::create_dir_all(&dir);
+                    let zp = dir.join(format!("{name}.zip"));
+                    std::fs::write(&zp, write_zip(&members.iter().map(|(n, d)| (n.to_string(), d.to_vec())).collect::<Vec<_>>())).expect("write zip");
+                    let spec = match pat {
+                        None => zp.to_string_lossy().to_string(),
+                        Some(p) => format!("{}!/{}", zp.to_string_lossy(), p),
+                    };
+                    let want: Vec<(&str, &[u8])> = members
+                        .iter()
+                        .filter(|(n, _)| match pat {
+                            None => true,
+                            Some(p) => glob::Pattern::new(p).map(|g| g.matches(n)).unwrap_or(false),
+                        })
+                        .cloned()
+                        .collect();
+                    match catch(|| extract_archives(spec.clone(), &mut temp_dirs, &cancel, &log)) {
+                        Err(p) => {
+                            ctx.violation("panic", &p.loc, cj, format!("extract_archives({spec}): {}", p.msg));
+                            ok = false;
+                        }
+                        Ok(got) => {
+                            if want.is_empty() {
+                                continue; // what is reported for an empty selection is judged by the main families
+                            }
+                            let mut missing = vec![];
+                            for (n, d) in &want {
+                                match got.iter().find(|g| g.ends_with(n)) {
+                                    None => missing.push(n.to_string()),
+                                    Some(g) => {
+                                        if std::fs::read(g).ok().as_deref() != Some(*d) {
+                                            ctx.violation("content_differs", "same_name_archives", cj, format!("call {di}: member {n} of {spec} extracted with other contents"));
+                                            ok = false;
+                                        }
+                                    }
+                                }
+                            }
+                            if !missing.is_empty() || got.len() != want.len() {
+                                ctx.violation("reported_set", "same_name_archives", cj, format!("call {di} on {spec}: reported {:?}, expected the members {:?} (missing {:?})", got.iter().map(|g| g.rsplit('/').take(2).collect::<Vec<_>>().into_iter().rev().collect::<Vec<_>>().join("/")).collect::<Vec<_>>(), want.iter().map(|w| w.0).collect::<Vec<_>>(), missing));
+                                ok = false;
+                            }
+                        }
+                    }
+                }
+                let _ = ok;
+                ctx.landmark("zip:same_name_in_two_directories");
+                ctx.transitions(2);
+                ctx.eval(true);
+                ctx.sample(cj);
+            }
+        }
+    }
+    let _ = std::fs::remove_dir_all(&base);
+    ctx.end_family(true);
+}
+
 impl C20Prop {
     fn run_inner(&self, ctx: &mut Ctx) {
         let thorough = ctx.tier == Tier::Thorough;
+        same_name_family(ctx);
         // ------------------------------------------------------------------ A: chain, smallest bound first
         let maxd = ctx.tier.pick(4, 5);
         for d in 1..=maxd {
